@@ -21,6 +21,7 @@ sim("C06", "DESIGN.md 6/C06", S+"the simulator decides when a message leaves a n
 sim("C07", "DESIGN.md 6/C07", S+"per-node hand-off ghost (next index to apply, last handed hard state, entries handed for persistence) checked on every Ready/LightReady; persisted-only rule against the disk image; must_sync two-sided; has_ready() <=> ready() non-empty decided on a clone (hook H1).", COMMON_NOTE)
 sim("C08", "DESIGN.md 6/C08", S+"every read request records the global maximum commit index at issue time; every ReadState must appear on the issuing node with index >= that bound (Safe mode forced).", COMMON_NOTE)
 sim("C09", "DESIGN.md 6/C09", S+"(a) what a leader appends on every proposal (incl. batched MsgPropose and auto-leave) against the one-pending-change / joint rules, (b,d) pre-state of every election start, (c) configuration as a function of the applied index across apply, snapshot install and restart.", COMMON_NOTE)
+sim("C10", "DESIGN.md 6/C10", S+"bounded liveness as a finite-trace property: an arbitrary generated fault prefix is followed by a deterministic fair suffix (everything restarted, healed, fsynced, snapshot reports delivered, every node ticked once per round, all messages delivered, periodic probe proposals); within 12 maximal election timeouts (checked up to 8x before reporting) one leader among the members, a probe entry applied on every running member, logs and commit indexes equal. Liveness under unfair schedules or beyond the bound is not claimed.", COMMON_NOTE, "stateful property-based testing with a deterministic fair suffix: generated fault prefix + bounded-convergence oracle evaluated after every round; proptest shrinking + delta debugging")
 sim("C13", "DESIGN.md 6/C13", S+"every message a leader emits is checked for shape (contiguous slice of its own log, anchor term, commit bounds, size limit) and against the per-follower progress state before/after the call (snapshot / paused probe / full window / inflight accounting); true uncommitted payload bytes are tracked independently of the crate's counter.", COMMON_NOTE)
 sim("C15", "DESIGN.md 6/C15", S+"pre/post conditions of every delivered MsgSnapshot (install / ignore / fast-forward), leader-side justification of every MsgSnapshot sent, anchor of the first append after a finished snapshot, application state digests after install; C01/C02/C05 monitors stay on under aggressive compaction.", COMMON_NOTE)
 sim("C16", "DESIGN.md 6/C16", S+"(1) pre-vote requests never change (term, vote); (2) with pre_vote on, a term rise needs a higher-term message, MsgTimeoutNow, or a quorum of granted pre-vote responses tallied by the simulator from delivered messages.", COMMON_NOTE)
